@@ -116,6 +116,16 @@ UNITS.append(flow.Unit('ep-piston', groups=['piston'], props=['props/C02_piston.
                             'these states region by region (checked on the real code)'))
 
 
+import guderley_corr as GDC
+import guderley_oracle as GDO
+UNITS.append(flow.Unit('guderley-shocks', groups=['guderley'], props=['props/C02_guderley.v'], custom_corr=GDC.unit_corr, oracle=GDO.jump_oracle, always_oracle=True,
+                       findings=[dict(id='guderley-lazarus-time-units', refuted='props/C02_guderley_refuted.v', pending=None,
+                                      what="Guderley returns velocities / pressures per unit of Lazarus time (tau = t / 0.750024322 - 1) while taking the caller's t: the converging shock as placed at t -+ dt moves 1/0.750024322 times faster than the speed for which the returned states conserve mass (11 % defect; geometry=3, gamma=3, t=0.3)",
+                                      replay=GDO.replay_c02)],
+                       note='Guderley: strong-shock start values at the converging shock and the general-strength jump coded at the reflected shock satisfy mass, momentum '
+                            'and energy conservation for every state the integrator may deliver (theorems, shock speed r^(1-lambda)/(lambda x) in Lazarus time); the real '
+                            'solver is evaluated on both sides of both shocks (oracle)'))
+
 def run(report, tier, rng):
     report.assumptions += [
         'real-number semantics of the generated model; py2coq translator validated by in-Coq correspondence goals',
